@@ -273,6 +273,8 @@ def run(cx, rep):
     atom_field_coverage(cx, rep, F)
     rep.rule("C07.6", "an atom is printed by the materialiser of the table it was fetched from")
     family_flow_rule(cx, rep, F, "C07.6")
+    from rules.c05 import mixed_family_arm_rule
+    mixed_family_arm_rule(cx, rep, "C07.6")
     # ---------------------------------------------------------------- C07.4
     rep.rule("C07.4", "polarity of materialised literal sets and atoms")
     n_mn = 0
@@ -838,16 +840,38 @@ def declared_lookup_rule(cx, rep, rid):
                 if par["k"] == "Let" and id(par) in parent and parent[id(par)]["k"] == "If":
                     scope = parent[id(par)]["then"]
                     break
+                if par["k"] == "LetStmt" and par.get("els") is not None or (par["k"] == "LetStmt" and id(par) in parent and parent[id(par)]["k"] == "Block" and par["pat"] is child):
+                    scope = parent[id(par)]          # `let PATTERN = .. else { .. };` - the rest of the block
+                    break
             if scope is None:
                 continue
             lookups = []
+
+            def is_v(e):
+                while e["k"] in ("AddrOf", "Unary"):
+                    e = e["e"]
+                return e["k"] == "Path" and e.get("lid") == V
             for x in walk(scope):
-                if x["k"] == "MethodCall" and x["method"] in LOOKUPS:
-                    r = x["recv"]
-                    while r["k"] in ("AddrOf", "Unary"):
-                        r = r["e"]
-                    if r["k"] == "Path" and r.get("lid") == V:
-                        lookups.append(x)
+                if x["k"] == "MethodCall" and x["method"] in LOOKUPS and is_v(x["recv"]):
+                    lookups.append(x)
+                elif x["k"] in ("Call", "MethodCall"):
+                    # the declared properties handed to a private helper that looks a key up in them
+                    args = ([x["recv"]] + x["args"]) if x["k"] == "MethodCall" else x["args"]
+                    pos = [i_ for i_, a_ in enumerate(args) if is_v(a_)]
+                    tg = F._callee_gid(f.crate, (x.get("resolved") or x.get("callee") or ""))
+                    if pos and tg in F.hir and tg != g:
+                        ps_ = F.hir[tg].get("params", [])
+                        for i_ in pos:
+                            if i_ < len(ps_) and isinstance(ps_[i_], dict):
+                                pl = {b_.get("lid") for b_ in walk(ps_[i_]) if b_["k"] == "P.Binding"}
+                                for y in walk(F.hir[tg]["body"]):
+                                    if y["k"] == "MethodCall" and y["method"] in LOOKUPS:
+                                        r_ = y["recv"]
+                                        while r_["k"] in ("AddrOf", "Unary"):
+                                            r_ = r_["e"]
+                                        if r_["k"] == "Path" and r_.get("lid") in pl:
+                                            lookups.append(x)
+                                            break
             for i, L in enumerate(lookups):
                 n_sites += 1
                 ok = False
@@ -857,6 +881,9 @@ def declared_lookup_rule(cx, rep, rid):
                         if par is scope or child is scope:
                             pass
                         if par["k"] == "If" and child is not par.get("cond") and mentions(par.get("cond"), I):
+                            ok = True
+                        # `sig.is_some() || lookup(..)` / `sig.is_none() && lookup(..)`: the left operand is evaluated first
+                        if par["k"] == "Binary" and par.get("op") in ("Or", "And") and child is par.get("r") and mentions(par.get("l"), I):
                             ok = True
                         if par["k"] == "Match" and par.get("src") == "Normal" and child["k"] == "Arm" and mentions(par.get("scrut"), I):
                             ok = True
